@@ -13,6 +13,7 @@ CONSTANTS SinkNames,       \* set of sink names
           SinkSets,        \* set of sink-name sequences a logger may be created with
           NStmt, NOps, NIdle, MaxGen,   \* bounds: statements, lifecycle operations, idle polls, objects per sink name
           AllowBlocking,   \* remove_logger_blocking may be called
+          FailFlush,       \* set of sink names whose flush_sink throws every time (each throw caught and reported per sink)
           Export
 VARIABLES held, alive, gen, entries, \* per sink name: user holds a reference, an object exists, objects created so far,
                                      \* entries in the sink registry (live or expired; pruned only after a logger removal)
@@ -45,7 +46,7 @@ CreateSink(s) ==        \* create_or_get_sink on a name without a live object
   /\ alive' = [alive EXCEPT ![s] = TRUE] /\ held' = [held EXCEPT ![s] = TRUE] /\ gen' = [gen EXCEPT ![s] = @ + 1]
   /\ entries' = [entries EXCEPT ![s] = @ + 1]      \* an expired entry of the same name stays until the next pruning
   /\ wr' = [wr EXCEPT ![s] = <<>>]
-  /\ Step("D", "sink", <<s>>, <<[k |-> "sink", s |-> s, lvl |-> 0, tw |-> <<>>, tf |-> <<>>]>>)
+  /\ Step("D", "sink", <<s>>, <<[k |-> "sink", s |-> s, lvl |-> 0, tw |-> <<>>, tf |-> IF s \in FailFlush THEN <<1>> ELSE <<>>]>>)
   /\ UNCHANGED <<lgP, lgV, lgS, q, hasInval, rmFlag, pc, rmL, nid, nidle>>
 
 GetSink(s) ==           \* get_sink: found iff an object is alive (weak reference can be locked)
@@ -107,6 +108,11 @@ CatValid(i) == IF i > Len(LoggerOrder) THEN <<>>
                ELSE (IF lgP[LoggerOrder[i]] /\ lgV[LoggerOrder[i]] THEN lgS[LoggerOrder[i]] ELSE <<>>) \o CatValid(i + 1)
 ActiveSinks == Uniq(CatValid(1), {})
 
+RECURSIVE FlushEvs(_)
+FlushEvs(ss) == IF ss = <<>> THEN <<>>
+                ELSE <<[k |-> "sflush", s |-> Head(ss), thr |-> Head(ss) \in FailFlush]>>
+                     \o (IF Head(ss) \in FailFlush THEN <<[k |-> "notify", cls |-> "sinkflush", n |-> 0]>> ELSE <<>>) \o FlushEvs(Tail(ss))
+
 BPoll ==
   IF q # <<>>
   THEN LET r == Head(q) IN
@@ -131,7 +137,7 @@ BPoll ==
           /\ entries' = IF gone # {} THEN [s \in SinkNames |-> IF alive[s] /\ s \notin dead THEN 1 ELSE 0] ELSE entries
           /\ rmFlag' = [l \in Loggers |-> rmFlag[l] /\ l \notin gone]
           /\ Step("B", "poll", <<"idle">>,
-                  [i \in 1..Len(as) |-> [k |-> "sflush", s |-> as[i], thr |-> FALSE]]
+                  FlushEvs(as)
                   \o [i \in 1..Cardinality(dead) |-> [k |-> "sinkdestroyed", s |-> SetToSeq(dead)[i]]]
                   \o <<[k |-> "loggercount", n |-> Cardinality({l \in Loggers : present2[l]})], [k |-> "quiescent", final |-> FALSE]>>)
        /\ UNCHANGED <<held, gen, lgV, lgS, q, pc, rmL, wr, nid, nops>>
